@@ -1020,6 +1020,9 @@ def sm_check(ctx, pid):
     # the small methods around execute(), regenerated from the current source (fail-closed translator harness/pytr.py)
     from . import sm_translate
     sm_translate.obligation(ctx)
+    # execute() itself, translated statement by statement and proved equal to SM.Model.exec_step (SM/SrcExecProofs.v)
+    from . import exec_translate
+    exec_translate.obligation(ctx)
     n = {"quick": 2000, "thorough": 48000}[ctx.tier]
     r = ctx.rng
     cases = []
